@@ -27,3 +27,10 @@ def sm_measure_lcm_rows_gt_384(prop, v, ops, knobs):
     """The mapset being written at the failing step has a measure whose objects need more than 384 rows
     (least common multiple of the writer's row denominators): tagged by the write oracle itself."""
     return "[needs>384rows]" in v.get("message", "")
+
+
+@feature
+def bms_tempo_change_off_snap_grid(prop, v, ops, knobs):
+    """The BMS file read at the failing step has a tempo change (channel 03/08) at a position inside a beat that is
+    not one of the timing engine's snap fractions (e.g. 5/11 or 7/13 of a measure): tagged by the read oracle."""
+    return "[tempo-change-off-snap-grid]" in v.get("message", "")
